@@ -61,7 +61,7 @@ pub fn run(prop: &str, leg: &str, ctx: &Ctx, rep: &mut Report) -> bool {
             rep.require("cold_start_processes", 60);
         }
         ("C12", "cold-start") => {
-            cold::parent(ctx, "C12", &["felt-batch"], &[1, 2, 7, 64, 512, 1024], ctx.sz(1000, 8000), &|_| vec![], rep);
+            cold::parent(ctx, "C12", &["felt-batch"], &[1, 2, 7, 64, 512, 1024], ctx.sz(20000, 150000), &|_| vec![], rep);
             rep.require("cold_start_processes", 60);
         }
         ("C02", "cold-start") => c02::cold_start(ctx, rep),
@@ -129,7 +129,7 @@ pub fn replay(v: &Value) -> bool {
     let r = &v["replay"];
     // findings that depend on a schedule or on a fresh process (cold-start legs, long-lived
     // threads, generator windows, deep rejection chains, planted candidates): re-run the leg
-    if matches!(r["kind"].as_str(), Some("cold") | Some("window") | Some("deep") | Some("planted-candidate") | Some("vanishing-candidate")) && r["generated_sk"].is_null() {
+    if matches!(r["kind"].as_str(), Some("cold") | Some("window") | Some("deep") | Some("teardown") | Some("planted-candidate") | Some("vanishing-candidate")) && r["generated_sk"].is_null() {
         println!("this finding depends on a schedule / a fresh process / a scripted generator: re-running the leg with the recorded seed");
         crate::util::not_replayable();
         return false;
